@@ -13,6 +13,18 @@ CHECKS = {
  "C02": ("exploration", "differential runtime monitor: generated builder programs executed on the real compiler+runner, every expression's witness value and the run outcome compared with an independent field interpreter",
          "Runtime monitoring over generated programs (all aliasing/fold/dedup/fusion shapes, 8 field setups, satisfying and perturbed inputs). Holds on the executions observed; catches miscompilations that need a specific program shape.",
          "DESIGN.md §3 C02", TRUSTED),
+ "C09": ("exploration", "runtime bus monitor: every WitnessChecks tuple of every row of the real Const/Public/ALU tables is replayed from the real AIRs and matrices of honest runs of generated programs and aggregated per witness slot; cross-checked against upstream's lookup debugger",
+         "Per-slot invariants (one creator, creator multiplicity == reads, equal values, no floating operand) observed on honest executions of generated programs under random packings. Slots touched only by plugin tables are judged by the upstream debugger cross-check.",
+         "DESIGN.md §3 C09", TRUSTED),
+ "C11": ("fault_enumeration", "runtime monitor over explicit trace rows: the real AIR constraints (incl. bus tuples) are evaluated on valid rows and on every single-cell perturbation and compared with an independent evaluation of the operation's relation in native field arithmetic",
+         "Every cell of every row layout (all op kinds x reductions x lanes x Horner packings, Poseidon1/2 row kinds) perturbed one at a time; constraints must accept exactly when the independently evaluated relation holds. Round-internal Poseidon columns are not perturbed.",
+         "DESIGN.md §3 C11", TRUSTED),
+ "C16": ("fault_enumeration", "runtime fault injection on proof metadata: every self-declared metadata field of real circuit proofs (honest and of invalid traces) altered through the serialised form, verdict of the real verifier observed; serialisation round-trip differential",
+         "Exhaustive single-field (sampled pairs) alteration of BatchStarkProof metadata on 6 configurations; a relying party pinning the preprocessed commitment never accepts an invalid-trace proof; codecs preserve the verdict. A verifier panic counts as (unclean) rejection and is reported as an observation.",
+         "DESIGN.md §3 C16", TRUSTED),
+ "C17": ("exploration", "runtime monitor over call histories of the real recursion API (next-layer / aggregation steps, adversarial cache offers): each output verified natively and fed to a further layer, cached vs uncached verdicts compared",
+         "Random histories of depth 1-4 with parameter changes and cache slots filled by other circuits; histories are short because each step costs seconds.",
+         "DESIGN.md §3 C17", TRUSTED),
  "C03": ("exploration", "runtime monitor with adversarial witness completion: the emitted op list is evaluated on its own by an independent relation checker and compared with the source program's relations; counter-examples are confirmed by proving a forged trace",
          "For generated programs, assignments accepted by the op-list relations alone (prover-chosen values for every slot no relation forces) must satisfy every source relation. Sampled programs and assignments, not all adversaries.",
          "DESIGN.md §3 C03", TRUSTED),
